@@ -177,7 +177,10 @@ def run(res, tier, seed):
         lmap = write_case(cdir, tree, c02.doc_xml(docs[d]))
         cases.append({"id": k, "dir": cdir, "trace": "all", "select": False})
         metas.append((tree, d, lmap))
+    # two lookup paths: XalanTransformer (quiet conflict warnings: first match in the sorted table) and XSLTEngineImpl driven
+    # directly with setQuietConflictWarnings(false), TestXSLT's default (scan all candidates and report conflicts)
     exe = vlib.build_harness("xslt")
+    exed = vlib.build_harness("xsltd")
     nsh = vlib.NCPU
     procs = []
     for s in range(nsh):
@@ -187,10 +190,14 @@ def run(res, tier, seed):
         cp = os.path.join(wd, "cases-%d.ndjson" % s)
         vlib.write_ndjson(cp, ch)
         rp = os.path.join(wd, "trace-%d.ndjson" % s)
-        procs.append((ch, rp, subprocess.Popen([exe, cp], stdout=open(rp, "w"), stderr=subprocess.PIPE)))
+        procs.append((ch, rp, "quiet", subprocess.Popen([exe, cp], stdout=open(rp, "w"), stderr=subprocess.PIPE)))
+        cpd = os.path.join(wd, "casesd-%d.ndjson" % s)
+        vlib.write_ndjson(cpd, [dict(c, quiet=False) for c in ch])
+        rpd = os.path.join(wd, "traced-%d.ndjson" % s)
+        procs.append((ch, rpd, "reporting", subprocess.Popen([exed, cpd], stdout=open(rpd, "w"), stderr=subprocess.PIPE)))
     events, npicks, nexec = [], 0, 0
     nontriv = set()
-    for ch, rp, p in procs:
+    for ch, rp, lookup, p in procs:
         _, err = p.communicate(timeout=3000)
         by_id, cur = {}, None
         for ev in vlib.read_ndjson(rp):
@@ -211,7 +218,7 @@ def run(res, tier, seed):
             picks = picks_from_trace(evs, lmap)
             for pk in picks:
                 pk["doc"] = d + 1; pk["node"] = [d + 1, pk["node"][1], 0]
-            events.append({"e": "Reset", "case": c["id"]})
+            events.append({"e": "Reset", "case": c["id"], "lookup": lookup})
             events.append({"e": "Rules", "tree": spec_tree(tree), "docn": d + 1})
             events += picks
             npicks += len(picks); nexec += 1
@@ -234,7 +241,7 @@ def run(res, tier, seed):
         bad.add(e)
         ex = execs[e]
         ev = events[rj["line"]]
-        key = classify(ex[1]["tree"], ev)
+        key = classify(ex[1]["tree"], ev, ex[0].get("lookup"))
         if key and key in known:
             res.known(known[key])
         else:
@@ -266,7 +273,7 @@ def _default_prio(alt):
     return 0.5
 
 
-def classify(tree, ev):
+def classify(tree, ev, lookup="quiet"):
     """known deviation: a union pattern without explicit priority is ranked as a whole by the highest default priority of
     its alternatives (each table entry tests the complete union), so it can beat a rule that should win"""
     def rules(m):
